@@ -37,6 +37,15 @@
                                          i.e. `select`, which must reject i >= length)
         → accesses=<count> inbounds ## <leaf kind> <imm|mut> len=<stored> offs=<offsets>
         (`rejected` if the access constructor panics)
+    log_rename <from> <set> <req> <flavour>   TensorRename::from(&mut t, from); set_names(set) under
+                                         catch_unwind; the surviving view indexed by req
+                                         (TensorAccess::from) and iterated
+        → set=<ok|panic> names=<names of the survivor> <as for log | access=rejected>
+  Stack / chain views over several mutable tensors (a case of its own):
+    @ zlog <chain|stack> <tuple|array> <along> <action> <shape>;<shape>;…
+        along: the chained dimension name | <pos>:<name> of the stacked dimension
+        action ∈ copy|ref|mut|owned|map_mut|map_mut_wi (iteration flavour or in-place map on the view)
+        → accesses=<n> inbounds ## tensor <imm|mut> lens=<stored per source> offs=<source>:<offset>,…
   Matrix cases (each a case of its own):
     @ mlog <rows> <cols> <order> <flavour>   order ∈ row_major|column_major|row:<r>|column:<c>|diagonal
         → as for `log` (`rejected`: the iterator constructor panics)
@@ -59,6 +68,7 @@ import EasyMl.Model.Survivor
 import Driver.Parse
 import Driver.C09
 import Driver.C11
+import EasyMl.Model.View
 
 namespace Driver.C10
 open EasyMl EasyMl.Survivor Driver
@@ -264,6 +274,24 @@ def stepT (s : Option T) (toks : List String) : Option T × String :=
       | some (_, src) =>
         (s, showAccesses "tensor" m t.data.length (tensorAccesses src (prod src.shape + 1)))
     | _, none => (s, "bad-op")
+  | "log_rename" :: fromS :: setS :: reqS :: fl :: _ =>
+    match s, flavourMutable fl with
+    | none, some _ => (s, "no-tensor")
+    | some t, some m =>
+      -- TensorRename::from(&mut t, from); set_names(set) under catch_unwind; then the surviving
+      -- view is indexed by `req` (TensorAccess::from) and iterated
+      let from_ := parseNames fromS
+      if from_.length ≠ t.shape.length || hasDuplicates from_ then (s, "rejected")
+      else
+        let r := renameSetNames from_ (parseNames setS)
+        let head := s!"set={if r.2 then "panic" else "ok"} names={if r.1.isEmpty then "-" else ",".intercalate r.1}"
+        let src := tensorSource t
+        match DimensionMappings.new (List.zip r.1 src.shape) (parseNames reqS) with
+        | none => (s, s!"{head} access=rejected")
+        | some mp =>
+          let asrc := src.access mp
+          (s, s!"{head} {showAccesses "tensor" m t.data.length (tensorAccesses asrc (prod asrc.shape + 1))}")
+    | _, none => (s, "bad-op")
   | "log_access" :: ns :: fl :: _ =>
     match s, flavourMutable fl with
     | none, some _ => (s, "no-tensor")
@@ -310,6 +338,44 @@ def step (s : State) (toks : List String) : State × String :=
       | some m => (⟨none, some m⟩, s!"ok {showMatrixState m}")
       | none => (⟨none, none⟩, "panic ## kind=explicit")
     | none => (⟨none, none⟩, "bad-op")
+  | ["@", "zlog", kind, _form, along, action, shapesS] =>
+    -- TensorChain / TensorStack over several (mutable) tensors, through the C02 view model
+    let shapes := (shapesS.splitOn ";").mapM parseShape
+    let mutable? : Option Bool := match action with
+      | "copy" | "ref" => some false
+      | "mut" | "owned" | "map_mut" | "map_mut_wi" => some true
+      | _ => none
+    match shapes, mutable? with
+    | some shapes, some m =>
+      let leaves : Option (List (View String Nat)) := (List.zip (List.range shapes.length) shapes).mapM
+        fun (i, sh) => View.mkTensor i sh (List.range (elements sh))
+      let view : Option (View String Nat) := leaves.bind fun ls =>
+        if kind = "chain" then View.mkChain ls along
+        else
+          match along.splitOn ":" with
+          | [pos, name] => pos.toNat?.bind fun p => View.mkStack ls (p, name)
+          | _ => none
+      match view with
+      | none => (⟨none, none⟩, "rejected")
+      | some v =>
+        let shape := lens v.shape
+        let cell : List Nat → Option (Nat × Nat) := fun idx =>
+          match v.getUnchecked idx with
+          | .ok c => some c
+          | .panic _ => none
+        match Iter.collect (Iter.refNext Iter.shapeNext cell) (prod shape + 1) (Iter.ShapeIter.new shape) with
+        | .panic k => (⟨none, none⟩, s!"panic ## kind={k}")
+        | .ok (items, _) =>
+          let accs := items.filterMap id
+          let lensL := shapes.map elements
+          let inb := accs.all fun a => match a with
+            | some (i, o) => decide (o < lensL.getD i 0)
+            | none => false
+          let offs := accs.map fun a => match a with
+            | some (i, o) => s!"{i}:{o}"
+            | none => "UB"
+          (⟨none, none⟩, s!"accesses={accs.length} {if inb then "inbounds" else "OUT-OF-BOUNDS"} ## tensor {if m then "mut" else "imm"} lens={showNats lensL} offs={if offs.isEmpty then "-" else ",".intercalate offs}")
+    | _, _ => (⟨none, none⟩, "bad-op")
   | ["@", "pnew", sz] =>
     -- the same matrix with an element type whose `Clone` can be made to panic
     match Driver.C11.parseSize sz with
